@@ -16,6 +16,10 @@ objects) with the solver entry points replaced by recorders:
             `setObjective`; the quadratic constraints are read back with `getQCRow`); `optimize` is a
             no-op.
 
+def_sol's MILP branch rounds the bounds of the non-continuous columns inward (ceil(lb - 1e-9),
+floor(ub + 1e-9)); the generator gives integer and binary columns fractional, integral, negative, infinite
+and near-integer bounds (see NEAR / FRAC below; `branches` counts them as def_sol:milp:<B|I>col-bound:<kind>).
+
 The recorded data (densified, as exact fractions, inf -> null, None -> null) are compared entry by
 entry with the Lean driver's `iface_data` answer; the returned `Solution` (objval / x) is compared with
 `iface_status` for def_sol and ECOS.  Last line: `cases <n> mismatches <k>`.
@@ -293,7 +297,19 @@ if HAVE_GRB:
 # --------------------------------------------------------------------------- generators
 
 DY = [-2, -1.5, -1, -0.5, -0.25, 0.25, 0.5, 1, 1.5, 2, 3]
-BND = [-3, -2, -1, -0.5, 0, 0.25, 0.5, 0.75, 1, 1.5, 2, 4]
+BND0 = [-3, -2, -1, -0.5, 0, 0.25, 0.5, 0.75, 1, 1.5, 2, 4]
+# def_sol rounds the bounds of integer / binary columns inward with the tolerance 1e-9 (ceil(lb - 1e-9),
+# floor(ub + 1e-9)): fractional, negative and near-integer bounds k ± 1e-12, k ± 5e-10 (inside the tolerance),
+# k ± 2e-9, k ± 1e-6 (outside).  Nothing within 1e-15 of k ± 1e-9: the float 1e-9 is not exactly 10^-9 and
+# `lb - 1e-9` is a rounded float operation, the Lean model computes with the exact rationals.
+NEAR = [k + d for k in (-2, -1, 0, 1, 2, 3) for d in (1e-12, -1e-12, 5e-10, -5e-10, 2e-9, -2e-9, 1e-6, -1e-6)]
+FRAC = [-2.5, -1.5, -0.75, -0.25, 1.25, 2.5, 3.5, 0.999999, -0.000001, 1.0000001]
+BND = BND0 + FRAC + NEAR
+
+
+def rbnd(rng):
+    t = rng.random()
+    return rng.choice(BND0 if t < 0.4 else (FRAC if t < 0.6 else NEAR))
 
 
 def rcoef(rng, n, pz=0.35):
@@ -335,11 +351,11 @@ def gen_model(rng, kind):
         m.st(0 * allv[0] <= r if rng.random() < 0.6 else 0 * allv[0] == r)
     for v in allv:               # bounds, also tighter / wider than [0, 1] on binaries
         if rng.random() < 0.5:
-            m.st(v >= rng.choice(BND))
+            m.st(v >= rbnd(rng))
         if rng.random() < 0.5:
-            m.st(v <= rng.choice(BND))
+            m.st(v <= rbnd(rng))
         if rng.random() < 0.1:
-            m.st(v == rng.choice(BND))
+            m.st(v == rbnd(rng))
     if kind in ('socp', 'misocp', 'exp', 'miexp'):
         for _ in range(rng.randint(1, 2)):
             t = rng.random()
@@ -396,8 +412,8 @@ def gen_formula(rng, kind):
     else:
         vt = [rng.choice('CBI') for _ in range(nc)]
     vt = np.array(vt)
-    lb = np.array([rng.choice([-np.inf, -np.inf] + BND) for _ in range(nc)], dtype=float)
-    ub = np.array([rng.choice([np.inf, np.inf] + BND) for _ in range(nc)], dtype=float)
+    lb = np.array([-np.inf if rng.random() < 0.2 else rbnd(rng) for _ in range(nc)], dtype=float)
+    ub = np.array([np.inf if rng.random() < 0.2 else rbnd(rng) for _ in range(nc)], dtype=float)
     obj = rcoef(rng, nc)
     qmat, xmat = [], []
     if kind in ('fsocp', 'fmisocp', 'fexp', 'fmiexp'):
@@ -597,6 +613,24 @@ def main():
                                  ('norows' if iface == 'gurobi' and rec.get('A_eq') is None else
                                   'mixed' if rec.get('mixed') else 'cont'))
             hist[key] = hist.get(key, 0) + 1
+            if iface == 'def_sol' and rec.get('call') == 'milp':
+                # coverage of the inward rounding: non-continuous columns by the kind of bound they carry
+                for k, v in enumerate(f.vtype):
+                    if v == 'C':
+                        continue
+                    for b in (float(f.lb[k]), float(f.ub[k])):
+                        if math.isinf(b):
+                            kd = 'inf'
+                        elif b == round(b):
+                            kd = 'integral'
+                        elif abs(b - round(b)) < 1e-9:
+                            kd = 'near-int-within-tol'
+                        elif abs(b - round(b)) < 1e-5:
+                            kd = 'near-int-outside-tol'
+                        else:
+                            kd = 'fractional'
+                        kk = 'def_sol:milp:{}col-bound:{}{}'.format(v, kd, '' if b >= 0 else ':neg')
+                        hist[kk] = hist.get(kk, 0) + 1
             if solchk is not None:
                 req, got, objref = solchk
                 if objref is not None and got['objval'] is not None and got['objval'] != fr(objref):
